@@ -15,6 +15,7 @@ import (
 	ophosttypes "github.com/initia-labs/OPinit/x/ophost/types"
 
 	"opsim/core"
+	"opsim/engine"
 	"opsim/node"
 )
 
@@ -127,7 +128,14 @@ func (w *l2World) reimport() *core.Violation {
 	if n2 == nil {
 		return w.fail(mismatch{"genesis.import-failed", "l2-import-failed", own, "a fresh L2 node could not be initialised from the exported genesis"})
 	}
-	// the initial validator updates describe exactly the bonded set
+	// the initial validator updates describe exactly the bonded set, in a form a consensus engine can start from
+	types := []string{"ed25519"}
+	if w.opts.SecpVals {
+		types = append(types, "secp256k1")
+	}
+	if err := engine.New(types).InitChain(n2.InitValidators); err != nil {
+		return w.fail(mismatch{"genesis.init-validators", "l2-init-validators", []string{"C16", "C13"}, "a consensus engine cannot start from the validator updates returned by InitChain after import: " + err.Error()})
+	}
 	iv := map[string]int64{}
 	for _, u := range n2.InitValidators {
 		k := fmt.Sprintf("%x", pkBytes(u.PubKey))
